@@ -73,8 +73,18 @@ RULE["C05"] += "; every 10th case is a feasible-specialist model (class 1: one s
 RULE["C10"] += "; every 8th case runs the in-step monitor over a BACKWARD run (both flags, due-time padding tasks), judged by the flag the caller passed"
 RULE["C12"] += "; the values are also checked at every observer phase 'updated' (whether or not update_PERT_data was called in that update); every 12th case pauses an FS network with an absence list, removes / inserts absence steps in the paused logs (the clock moves) and resumes"
 RULE["C20"] += "; half of the tasks are constructed with file_path, and every 4th case sends the configured parent project through write_simple_json / read_simple_json (result file still present) before it runs"
+_SCALE = ("; 5-8 % of the cases are models BEYOND the usual sizes (gen_scale: runs of 100-1500 steps with absence blocks of up to 140 consecutive steps, "
+          "fan-in of up to 299, 33-70 tasks on one component, finish-gated chains of 11-40 tasks, teams of 100 workers, 10-14 teams with numeric IDs, "
+          "17-26 components in one workplace)")
+for _p in ("C01", "C02", "C03", "C04", "C05", "C06", "C07", "C08", "C09", "C10", "C11", "C12", "C13", "C14", "C15", "C16", "C17", "C18", "C19"):
+    RULE[_p] += _SCALE
+RULE["C12"] += "; standalone networks also with work amounts x 1000-3000 (schedules beyond 10000 time units) and FS chains of 300-1500 tasks"
+RULE["C16"] += "; every 40th case writes and reads a never-simulated FS chain of 1000-1200 tasks"
+RULE["C18"] += "; on logs longer than 100 steps half of the index lists hold 65-130 steps"
+RULE["C19"] += "; 8 % of the encoder logs have 255-1500 records"
+RULE["C20"] += "; every 12th case uses a sub-project that runs for 257 and more steps"
 for _p in RULE:
-    RULE[_p] += " [generator-wide: 4 % of the random models with workplaces share an ID string across classes (team/workplace, worker/facility); individual and project absence lists unsorted in 25 % and with a repeated entry in 5 % of the draws; 6 % of the random models repeat a task name]"
+    RULE[_p] += " [generator-wide: 2.5 % of the gen_random models are LARGE (12-36 tasks, up to 72 workers, 72 facilities, 12 components, work up to 1500, absence steps out to step 300, max_time x 8); 4 % of the random models with workplaces share an ID string across classes (team/workplace, worker/facility); individual and project absence lists unsorted in 25 % and with a repeated entry in 5 % of the draws; 6 % of the random models repeat a task name]"
 # minimal number of non-trivial cases / monitor evaluations for a conclusive run: (counter, quick, thorough)
 FLOORS = {
     "C01": [("C01.transitions", 2000, 50000), ("C01.nonFS_active", 100, 3000)],
